@@ -378,6 +378,27 @@ theorem insertColumnCloning_spec (m : Matrix α) (hm : m.Inv) (column : Nat) (v 
         EasyMl.C11.panic_frame m hm (.insertColumn column v)⟩
   · exact ⟨hm, fun _ => rfl⟩
 
+/-! ### the rename setter keeps the names unique -/
+
+theorem renameSetNames_spec (names new : List ν) (h : names.Nodup) :
+    (renameSetNames names new).1.Nodup ∧
+      (renameSetNames names new).1.length = names.length ∧
+      ((renameSetNames names new).2 = true → (renameSetNames names new).1 = names) ∧
+      ((renameSetNames names new).2 = false → (renameSetNames names new).1 = new ∧ new.Nodup) := by
+  unfold renameSetNames
+  split
+  · exact ⟨h, rfl, fun _ => rfl, fun hf => by simp at hf⟩
+  · rename_i hl
+    split
+    · exact ⟨h, rfl, fun _ => rfl, fun hf => by simp at hf⟩
+    · rename_i hd
+      have hnd : new.Nodup := by
+        have := hasDuplicates_iff new
+        cases hh : hasDuplicates new
+        · rw [hh] at this; simpa using this
+        · exact absurd hh hd
+      exact ⟨hnd, by simpa using hl, fun ht => by simp at ht, fun _ => ⟨rfl, hnd⟩⟩
+
 /-! ### matrix view sources whose cells stay inside the leaf -/
 
 /-- every position inside the view resolves to a cell below `len` -/
